@@ -272,6 +272,8 @@ impl RepRun {
         let roll = rng.below(100);
         if roll < 8 {
             self.gen_expirable(rng)
+        } else if roll < 18 {
+            self.gen_pending_burst(rng)
         } else if roll < 55 {
             self.gen_batch(rng)
         } else if roll < 60 {
@@ -322,6 +324,32 @@ impl RepRun {
         format!("X {} ; {}", parts.len(), parts.join(" ; "))
     }
 
+    /// an accurate batch that makes several tasks pending / recurring or takes some out again
+    fn gen_pending_burst(&mut self, rng: &mut Rng) -> String {
+        let cur = self.tasks();
+        let mut parts = vec!["undo".to_string()];
+        let n = 1 + rng.below(4);
+        let mut seen = Vec::new();
+        for _ in 0..n {
+            let un = 1 + rng.below(8);
+            if seen.contains(&un) {
+                continue;
+            }
+            seen.push(un);
+            let u = uuid_of(un as u128);
+            let old = match cur.get(&u) {
+                Some(t) => t.get("status").cloned(),
+                None => {
+                    parts.push(format!("create {}", un));
+                    None
+                }
+            };
+            let st = *rng.pick(&["pending", "pending", "recurring", "completed", "pending"]);
+            parts.push(format!("update {} {} {} {} 100 0", un, enc_str("status"), fmt_opt(&old), enc_str(st)));
+        }
+        format!("X {} ; {}", parts.len(), parts.join(" ; "))
+    }
+
     fn gen_batch(&mut self, rng: &mut Rng) -> String {
         let now = Utc::now().timestamp();
         let day = 86400;
@@ -347,7 +375,7 @@ impl RepRun {
         let cur = self.tasks();
         let mut parts = Vec::new();
         for _ in 0..n {
-            let un = 1 + rng.below(4);
+            let un = 1 + rng.below(8);
             let u = uuid_of(un as u128);
             let st = view.entry(u).or_insert_with(|| cur.get(&u).cloned());
             let r = rng.below(100);
